@@ -394,7 +394,6 @@ Proof.
 Qed.
 
 (** * 5. Ghost invariant *)
-Definition is_bad (m : msg) : bool := match m with MEnc | MPlain => true | _ => false end.
 Definition olen {A} (o : option A) : nat := match o with Some _ => 1 | None => 0 end.
 
 Record Inv (a : absst) (g : ghost) : Prop := {
@@ -879,4 +878,120 @@ Proof.
   destruct (gstep_inv _ _ _ _ Hy) as [l [c' [m [Hin [-> Hfit]]]]].
   cbn [fst snd]. apply (inv_step l m (abs (fst x)) (abs c') (snd x)); [exact Hfit | | exact IH].
   eapply trans_ok_reachable; eauto.
+Qed.
+
+(** * Consequences of the invariant: the history statements of C08 *)
+
+(** responses are written in request order, each once, and each is the response the code
+    computes for its request: the written responses are exactly the responses of a prefix of
+    the messages read *)
+Theorem conn_responses_in_order : forall A tls x,
+  reachable (gstep cfg_repo A) (ginit_state tls) x ->
+  writes (snd x) = map resp_entry (firstn (length (writes (snd x))) (reads (snd x))).
+Proof. intros A tls x H. apply (i_writes _ _ (ghost_inv A tls x H)). Qed.
+
+(** messages are numbered in arrival order *)
+Theorem conn_reads_numbered : forall A tls x i e,
+  reachable (gstep cfg_repo A) (ginit_state tls) x ->
+  nth_error (reads (snd x)) i = Some e -> fst e = Z.of_nat i.
+Proof. intros A tls x i e H. apply (i_ids _ _ (ghost_inv A tls x H)). Qed.
+
+(** every request on a live connection is answered: whenever the connection is idle (all three
+    goroutines wait for the peer's next message) every message read so far has been answered *)
+Theorem conn_idle_all_answered : forall A tls x,
+  reachable (gstep cfg_repo A) (ginit_state tls) x -> idle (fst x) = true ->
+  writes (snd x) = map resp_entry (reads (snd x)).
+Proof.
+  intros A tls [c g] H Hidle. cbn [fst snd] in *.
+  pose proof (ghost_inv A tls _ H) as HI. cbn [fst snd] in HI. destruct HI.
+  unfold idle in Hidle.
+  destruct (rp c) eqn:Er; try discriminate Hidle.
+  destruct (wp c) eqn:Ew; try discriminate Hidle.
+  destruct (hp c) eqn:Eh; try discriminate Hidle.
+  unfold abs in *. cbn [a_rfull a_hst a_wfull a_rdead a_hexit a_wdead a_herr] in *.
+  rewrite Er in *. rewrite Ew in *. rewrite Eh in *.
+  destruct (rslot g) eqn:Ers; [destruct i_r0|].
+  destruct i_h0 as [Hhs Hhr].
+  assert (Hw : wslot g = None) by (apply i_w0; reflexivity).
+  pose proof (i_rpos0 eq_refl) as [Hlen _]. pose proof (i_hcnt0 eq_refl) as Hc. pose proof (i_wcnt0 eq_refl) as Wc.
+  rewrite Hhs, Hhr in Hc. rewrite Hw in Wc. cbn [olen] in *.
+  rewrite i_writes0 at 1. f_equal. apply firstn_all2. lia.
+Qed.
+
+(** a correctly framed message that cannot be decoded is answered by the invalid-message
+    response (definition of [resp_of]) and nothing after it is answered: the connection is
+    closed after that single reply *)
+Theorem conn_invalid_reply_is_last : forall A tls x i e,
+  reachable (gstep cfg_repo A) (ginit_state tls) x ->
+  nth_error (reads (snd x)) i = Some e -> is_bad (snd e) = true ->
+  length (writes (snd x)) <= S i.
+Proof.
+  intros A tls x i e H Hn Hb. destruct (ghost_inv A tls x H).
+  cbn [olen] in *.
+  destruct (Nat.lt_ge_cases i (handed (snd x))) as [Hlt|Hge].
+  - destruct (i_bad0 i e Hn Hb Hlt) as [_ E]. lia.
+  - lia.
+Qed.
+
+Lemma resp_of_bad m : is_bad m = true -> resp_of m = RInvalid.
+Proof. destruct m; cbn; intros H; try discriminate H; reflexivity. Qed.
+
+(** * The batch executor never lets a handler panic escape *)
+Theorem execute_items_total : forall l, execute_items true l = GRet (map item_result l).
+Proof.
+  induction l as [|b l IH]; [reflexivity|].
+  cbn [execute_items map]. rewrite IH. destruct b; reflexivity.
+Qed.
+
+Theorem resp_of_request : forall items, resp_of (MReq items) = RItems (map item_result items).
+Proof. intros items. unfold resp_of. rewrite execute_items_total. reflexivity. Qed.
+
+(** it is the deferred recover of executeItem that does it *)
+Lemma execute_item_without_recover_panics :
+  execute_items false [BOk; BPanicStr] = GPanic.
+Proof. reflexivity. Qed.
+
+(** * 6. The pinned tree's code (before the fix: commits) really had the defects *)
+
+Definition pick (f : cstate -> bool) (C : cfg) : cstate :=
+  match find f (fst (reach_set (cstep C) enc_cstate 400 (cinit false))) with Some s => s | None => cinit false end.
+
+(** terminate closed tx while send had already loaded it: send on closed channel *)
+Definition w_panic : cstate := Eval vm_compute in pick panicked cfg_pinned.
+Theorem pinned_conn_can_panic :
+  exists s, reachable (cstep cfg_pinned) (cinit false) s /\ panicked s = true.
+Proof.
+  exists w_panic. split; [|reflexivity].
+  apply (reachable_by_exploration cfg_pinned (cinit false) 400). vm_compute. reflexivity.
+Qed.
+
+(** writeloop blocked forever on the unbuffered errCh after send left through ctx.Done():
+    a state with the peer gone, nothing enabled, not panicked, and writeloop not finished *)
+Definition leaked (s : cstate) : bool :=
+  negb (panicked s) && conn_over s && negb (all_done s)
+  && match cstep cfg_pinned s with [] => true | _ => false end
+  && match wp s with W_SendErr => true | _ => false end.
+Definition w_leak : cstate := Eval vm_compute in pick leaked cfg_pinned.
+Theorem pinned_conn_can_leak :
+  exists s, reachable (cstep cfg_pinned) (cinit false) s /\ panicked s = false /\ conn_over s = true
+            /\ cstep cfg_pinned s = [] /\ all_done s = false /\ wp s = W_SendErr.
+Proof.
+  exists w_leak. split; [|repeat split; reflexivity].
+  apply (reachable_by_exploration cfg_pinned (cinit false) 400). vm_compute. reflexivity.
+Qed.
+
+(** * Non-vacuity: the states the theorems talk about are reachable *)
+Definition w_idle : cstate := Eval vm_compute in pick idle cfg_repo.
+Example idle_reachable : exists s, reachable (cstep cfg_repo) (cinit false) s /\ idle s = true.
+Proof.
+  exists w_idle. split; [|reflexivity].
+  apply (reachable_by_exploration cfg_repo (cinit false) 400). vm_compute. reflexivity.
+Qed.
+
+Definition w_hgone : cstate := Eval vm_compute in pick (fun s => in_handler s && conn_over s) cfg_repo.
+Example handler_and_gone_reachable :
+  exists s, reachable (cstep cfg_repo) (cinit false) s /\ in_handler s = true /\ conn_over s = true.
+Proof.
+  exists w_hgone. split; [|split; reflexivity].
+  apply (reachable_by_exploration cfg_repo (cinit false) 400). vm_compute. reflexivity.
 Qed.
